@@ -11,8 +11,8 @@ from props import c08 as T
 
 ID = 'C09'
 PROFILES = ['debug', 'release']
-THEOREMS = ['C09_bound_explicit', 'C09_terminates', 'C09_terminates_fuel', 'C09_unresolved_root',
-            'C09_deterministic', 'C09_single_loop', 'C09_binary_fuel_same_loop']
+THEOREMS = ['C09_bound_explicit', 'C09_unresolved_root', 'C09_deterministic', 'C09_single_loop',
+            'C09_binary_fuel_same_loop', 'C09_bound_as_fuel']
 ALLOWED_AXIOMS = []
 CASE_TIMEOUT = 120
 
@@ -80,7 +80,7 @@ def subterms(x, kids):
 
 
 def step_bound(octx, tctx, obj, chk):
-    """|O|*|C|*(2+(fc+2)*(fo+fc+2)) + fc + 4 — Properties/C09.v, C09_bound_explicit"""
+    """P*M*(P+1) + P + K + 2 with P = |O|*|C|, K = fc+3, M = 2+K*(fo+fc+2) — Properties/C09.v, C09_bound_explicit"""
     r = tctx.get(chk[1]) if chk[0] == '@' else chk
     if r is None:
         return 0
@@ -93,7 +93,10 @@ def step_bound(octx, tctx, obj, chk):
         chks += subterms(v, kids_chk)
     fo = max([len(kids_obj(o)) for o in objs] + [0])
     fc = max([len(kids_chk(c)) for c in chks] + [0])
-    return len(objs) * (2 * len(chks)) * (2 + (fc + 2) * (fo + fc + 2)) + fc + 4
+    P = len(objs) * (4 * len(chks))
+    K = fc + 3
+    M = 2 + K * (fo + fc + 2)
+    return P * M * (P + 1) + P + K + 2
 
 
 def oracle(case, obs, prof):
